@@ -152,4 +152,15 @@ CHECKS = {
             {"part": "exec", "test": "TestExec", "quick": {"checks": 480, "shards": 16, "shrinktime": "60s", "timeout": 900}, "thorough": {"checks": 6000, "shards": 16, "shrinktime": "120s", "timeout": 6000}, "owned_schedule": False},
         ],
     },
+    "C14": {
+        "pkg": "c14",
+        "engine": "e2e-opkit",
+        "aux_builds": [{"pkg": "./cmd/vhook", "out": "vhook"}],
+        "technique": "property-based fault injection (rapid): generated admission requests x scripted hook outcomes through the real HTTP router and operator, decision-table oracle",
+        "level_text": "Random binding sets, request paths/bodies and hook outcomes through the real admission router, event handler and hook processes; allowed=true only per the decision table; verdict relay and routing checked against the hook log. Search over the fault table, not a proof.",
+        "level_note": "Trusted: scripted hook binary; httptest instead of the TLS listener; webhook ids that collide after sanitising are only required to fail closed and to run a hook that registered the id.",
+        "parts": [
+            {"part": "admission", "test": "TestAdmission", "quick": {"checks": 320, "shards": 16, "shrinktime": "60s", "timeout": 900}, "thorough": {"checks": 8000, "shards": 16, "shrinktime": "120s", "timeout": 6000}},
+        ],
+    },
 }
